@@ -150,3 +150,244 @@ Proof.
   refine (portrefs_module_total d (ncnames xi m) k m (Hmods k m Hk) (frag_ok_module d k m Hfr (proj2 (nth_mod_nth _ _ _) Hk)) _ keys Hkeys).
   intros x ports pw Hx Hp Hin. eapply port_widths_pos; try eassumption. apply nth_mod_nth. exact Hk.
 Qed.
+
+(* ------------------------------------------------------------------------------------------ same_net is kept *)
+Lemma Forall2_flip {A B} (R : A -> B -> Prop) l l' : Forall2 R l l' -> Forall2 (fun b a => R a b) l' l.
+Proof. induction 1; constructor; auto. Qed.
+
+Lemma vdown_skel (R : module -> module -> Prop) dA dB :
+  (forall m m' i x, R m m' -> find_inst (m_insts m) i = Some x ->
+     exists x', find_inst (m_insts m') i = Some x' /\ i_n x' = i_n x /\ i_of x' = i_of x) ->
+  (forall k m, nth_mod dA k = Ok m -> exists m', nth_mod dB k = Ok m' /\ R m m') ->
+  forall p m m' mp, R m m' -> vdown dA m p = Ok mp -> exists mp', vdown dB m' p = Ok mp' /\ R mp mp'.
+Proof.
+  intros Hfind Hnth. induction p as [|[i e] p IH]; intros m m' mp HR H; cbn [vdown] in *.
+  - inversion H; subst. eauto.
+  - destruct (find_inst (m_insts m) i) as [x|] eqn:Ef; cbn [ofopt bind] in H; [|discriminate].
+    destruct (Hfind _ _ _ _ HR Ef) as [x' [Hf' [Hn' Ho']]]. rewrite Hf'. cbn [ofopt bind].
+    unfold elem_ok in *. rewrite Hn', Ho'. destruct (if i_n x <=? 0 then e =? 0 else (0 <=? e) && (e <? i_n x)); [|discriminate].
+    destruct (i_of x) as [k|]; [|discriminate]. destruct (nth_mod dA k) as [mk|] eqn:Ek; cbn [bind] in H; [|discriminate].
+    destruct (Hnth _ _ Ek) as [mk' [Hk' Rk]]. rewrite Hk'. cbn [bind]. eapply IH; eassumption.
+Qed.
+
+Section PRSem.
+Variables (xi : xinfo) (d d1 : design).
+Hypothesis Hwf : wf_design d = Ok tt.
+Hypothesis Hfr : frag_ok d = true.
+Hypothesis Hxi : xinfo_ok xi d = true.
+Hypothesis Hpass : portrefs_design xi d = Ok d1.
+
+Definition PR (m m' : module) : Prop :=
+  exists k, nth_mod d k = Ok m /\ nth_mod d1 k = Ok m' /\ portrefs_module d (ncnames xi m) m = Ok m'.
+
+Lemma pr_wfs1 : wfs d1.
+Proof. eapply portrefs_wfs; eassumption. Qed.
+
+Lemma pr_nth k m : nth_mod d k = Ok m -> exists m', nth_mod d1 k = Ok m' /\ PR m m'.
+Proof.
+  intros Hk. destruct (map_modules_nth _ _ _ _ _ Hpass Hk) as [m' [Hk' Hf]]. exists m'. split; [exact Hk'|]. exists k. auto.
+Qed.
+
+Lemma pr_nth_rev k m' : nth_mod d1 k = Ok m' -> exists m, nth_mod d k = Ok m /\ PR m m'.
+Proof.
+  intros Hk. apply nth_mod_nth in Hk. destruct (map_modules_nth_rev _ _ _ _ _ Hpass Hk) as [m [Hkm Hf]]. exists m.
+  split; [apply nth_mod_nth; exact Hkm|]. exists k. split; [apply nth_mod_nth; exact Hkm|]. split; [apply nth_mod_nth; exact Hk|exact Hf].
+Qed.
+
+Lemma pr_top : d_top d1 = d_top d.
+Proof. apply (map_modules_inv _ _ _ Hpass). Qed.
+
+(* the parts of the pass on one module *)
+Lemma pr_parts m m' : PR m m' -> exists k keys allocs names insts1,
+  nth_mod d k = Ok m /\ wf_module d k m = Ok tt /\
+  (forall x c, In x (m_insts m) -> In c (i_conns x) -> conn_frag d m x c = true) /\
+  (forall x ports pw, In x (m_insts m) -> target_ports d (i_of x) = Ok ports -> In pw ports -> 1 <= snd pw) /\
+  all_keys d m = Ok keys /\ plan d (ncnames xi m) m keys (seeds m) [] = Ok allocs /\
+  alloc_names (map a_base allocs) (namespace m) = Ok names /\
+  Forall2 (fun x x1 => rewrite_inst m keys (number_allocs (combine allocs names) (next_leaf m)) x = Ok x1) (m_insts m) insts1 /\
+  m' = m1 m allocs names insts1.
+Proof.
+  intros [k [Hk [Hk' Hm]]]. destruct (portrefs_module_inv _ _ _ _ Hm) as [keys [allocs [names [insts1 [H1 [H2 [H3 [H4 H5]]]]]]]].
+  destruct (wf_design_inv _ Hwf) as [_ [_ Hmods]].
+  exists k, keys, allocs, names, insts1. split; [exact Hk|]. split; [apply Hmods; apply nth_mod_nth; exact Hk|].
+  split; [apply (frag_ok_module d k m Hfr Hk)|]. split; [|auto 10].
+  intros x ports pw Hx Hp Hin. eapply port_widths_pos; eassumption.
+Qed.
+
+Lemma pr_find_fwd m m' i x : PR m m' -> find_inst (m_insts m) i = Some x ->
+  exists x', find_inst (m_insts m') i = Some x' /\ i_n x' = i_n x /\ i_of x' = i_of x.
+Proof.
+  intros HR Hf. destruct (pr_parts m m' HR) as [k [keys [allocs [names [insts1 [_ [_ [_ [_ [_ [_ [_ [F ->]]]]]]]]]]]]].
+  destruct (find_inst_Forall2 _ _ _ i x F) as [x' [Hf' Hr]]; [intros a b H; apply rewrite_inst_inv in H; symmetry; tauto|exact Hf|].
+  exists x'. split; [exact Hf'|]. apply rewrite_inst_inv in Hr. tauto.
+Qed.
+
+Lemma pr_find_bwd m m' i x' : PR m m' -> find_inst (m_insts m') i = Some x' ->
+  exists x, find_inst (m_insts m) i = Some x /\ i_n x = i_n x' /\ i_of x = i_of x'.
+Proof.
+  intros HR Hf. destruct (pr_parts m m' HR) as [k [keys [allocs [names [insts1 [_ [_ [_ [_ [_ [_ [_ [F ->]]]]]]]]]]]]].
+  cbn [m1 m_insts] in Hf. destruct (find_inst_Forall2 _ _ _ i x' (Forall2_flip _ _ _ F)) as [x [Hf' Hr]]; [intros a b H; apply rewrite_inst_inv in H; tauto|exact Hf|].
+  exists x. split; [exact Hf'|]. apply rewrite_inst_inv in Hr. split; symmetry; tauto.
+Qed.
+
+Lemma pr_vmod_fwd p m : vmod_at d p = Ok m -> exists m', vmod_at d1 p = Ok m' /\ PR m m'.
+Proof.
+  unfold vmod_at. rewrite pr_top. destruct (nth_mod d (d_top d)) as [top|] eqn:Et; cbn [bind]; [|discriminate].
+  destruct (pr_nth _ _ Et) as [top' [Ht' Rt]]. rewrite Ht'. cbn [bind]. intros H.
+  apply (vdown_skel PR d d1 pr_find_fwd pr_nth (rev p) top top' m Rt H).
+Qed.
+
+Lemma pr_vmod_bwd p m' : vmod_at d1 p = Ok m' -> exists m, vmod_at d p = Ok m /\ PR m m'.
+Proof.
+  unfold vmod_at. rewrite pr_top. destruct (nth_mod d1 (d_top d)) as [top'|] eqn:Et; cbn [bind]; [|discriminate].
+  destruct (pr_nth_rev _ _ Et) as [top [Ht Rt]]. rewrite Ht. cbn [bind]. intros H.
+  destruct (vdown_skel (fun a b => PR b a) d1 d (fun m m' i x R Hf => pr_find_bwd m' m i x R Hf) pr_nth_rev (rev p) top' top m' Rt H) as [m [Hm R]].
+  eauto.
+Qed.
+
+Lemma pr_target_ports t ps : target_ports d t = Ok ps -> target_ports d1 t = Ok ps.
+Proof. apply (target_ports_keep _ _ _ t Hpass). intros m m' H. eapply portrefs_ports_keep. exact H. Qed.
+
+Lemma pr_port_width_fwd x x' port w : i_of x' = i_of x -> port_width d x port = Ok w -> port_width d1 x' port = Ok w.
+Proof.
+  intros Ho. unfold port_width. rewrite Ho. destruct (target_ports d (i_of x)) as [ps|] eqn:Et; cbn [bind]; [|discriminate].
+  rewrite (pr_target_ports _ _ Et). tauto.
+Qed.
+
+Lemma pr_port_width_bwd k m x x' port w : nth_mod d k = Ok m -> In x (m_insts m) -> i_of x' = i_of x ->
+  port_width d1 x' port = Ok w -> port_width d x port = Ok w.
+Proof.
+  intros Hk Hx Ho. destruct (wf_design_inv _ Hwf) as [_ [_ Hmods]].
+  destruct (wf_module_inv _ _ _ (Hmods k m (proj1 (nth_mod_nth _ _ _) Hk))) as [_ [_ [_ Hi]]].
+  destruct (wf_inst_inv _ _ _ _ (Hi x Hx)) as [_ [ports [Hp _]]].
+  unfold port_width. rewrite Ho, (pr_target_ports _ _ Hp), Hp. tauto.
+Qed.
+
+(* ---- the retraction ---- *)
+Definition pr_an (m : module) : option (list alloc * list name) :=
+  match all_keys d m with
+  | Ok keys =>
+      match plan d (ncnames xi m) m keys (seeds m) [] with
+      | Ok allocs => match alloc_names (map a_base allocs) (namespace m) with Ok names => Some (allocs, names) | Error _ => None end
+      | Error _ => None
+      end
+  | Error _ => None
+  end.
+
+Definition psi (n : node) : node :=
+  match n with
+  | NSig p s k =>
+      match vmod_at d p with
+      | Ok m =>
+          match sig_width m s with
+          | Some _ => n
+          | None => match pr_an m with
+                    | Some an => match owner_node d m (fst an) (snd an) p s k with Some n' => n' | None => n end
+                    | None => n
+                    end
+          end
+      | Error _ => n
+      end
+  | _ => n
+  end.
+
+Let ec0 := ec (Nets.step d) (valid d).
+Let ec1 := ec (Nets.step d1) (valid d1).
+
+Lemma local_tgt_d1 m' x1 e port k : port_width d1 x1 port = port_width d x1 port ->
+  local_tgt d1 m' x1 e port k = local_tgt d m' x1 e port k.
+Proof. intros H. apply (local_tgt_ext d d1 m' m' x1 e port k eq_refl H). Qed.
+
+(* valid nodes stay valid *)
+Lemma pr_valid_fwd x : valid d x -> valid d1 x.
+Proof.
+  destruct x as [p s k|p i e port k|p s k]; cbn [valid]; [| |tauto].
+  - intros [m [w [Hm [Hs Hk]]]]. destruct (pr_vmod_fwd p m Hm) as [m' [Hm' HR]]. exists m', w. split; [exact Hm'|]. split; [|exact Hk].
+    destruct (pr_parts m m' HR) as [k0 [keys [allocs [names [insts1 [_ [_ [_ [_ [_ [_ [_ [_ ->]]]]]]]]]]]]].
+    rewrite m1_sig_width. apply sigw1_old. exact Hs.
+  - intros [m [x [w [Hm [Hf [He [Hw Hk]]]]]]]. destruct (pr_vmod_fwd p m Hm) as [m' [Hm' HR]].
+    destruct (pr_find_fwd m m' i x HR Hf) as [x' [Hf' [Hn' Ho']]]. exists m', x', w. split; [exact Hm'|]. split; [exact Hf'|].
+    split; [unfold elem_ok in *; rewrite Hn'; exact He|]. split; [apply (pr_port_width_fwd x x' port w Ho' Hw)|exact Hk].
+Qed.
+
+Lemma psi_id x : valid d x -> psi x = x.
+Proof.
+  destruct x as [p s k|p i e port k|p s k]; cbn [valid psi]; try reflexivity.
+  intros [m [w [Hm [Hs Hk]]]]. rewrite Hm, Hs. reflexivity.
+Qed.
+
+Lemma pr_an_parts m allocs names keys : all_keys d m = Ok keys -> plan d (ncnames xi m) m keys (seeds m) [] = Ok allocs ->
+  alloc_names (map a_base allocs) (namespace m) = Ok names -> pr_an m = Some (allocs, names).
+Proof. intros H1 H2 H3. unfold pr_an. rewrite H1, H2, H3. reflexivity. Qed.
+
+Lemma psi_valid u : valid d1 u -> valid d (psi u).
+Proof.
+  destruct u as [p s k|p i e port k|p s k]; cbn [valid psi]; [| |tauto].
+  - intros [m' [w1 [Hm' [Hs' Hk]]]]. destruct (pr_vmod_bwd p m' Hm') as [m [Hm HR]]. rewrite Hm.
+    destruct (pr_parts m m' HR) as [k0 [keys [allocs [names [insts1 [Hk0 [Hwm [Hfrag [Hpw [Hkeys [Hplan [Hnames [Hins ->]]]]]]]]]]]]].
+    rewrite m1_sig_width in Hs'. destruct (sig_width m s) as [w0|] eqn:Es.
+    + cbn [valid]. exists m, w0. split; [exact Hm|]. split; [exact Es|]. rewrite (sigw1_old m allocs names s w0 Es) in Hs'. inversion Hs'; subst. exact Hk.
+    + rewrite (pr_an_parts m allocs names keys Hkeys Hplan Hnames). cbn [fst snd].
+      destruct (fresh_sig_entry m allocs names s w1 Es Hs') as [id [a [Ht Haw]]].
+      destruct (owner_valid d (ncnames xi m) k0 m Hwm Hfrag Hpw keys allocs names Hkeys Hplan Hnames p id a s k Ht ltac:(lia))
+        as [i [e [port [kk [x [w [Hon [Hf [He [Hw Hkk]]]]]]]]]].
+      rewrite Hon. cbn [valid]. exists m, x, w. auto.
+  - intros [m' [x' [w [Hm' [Hf' [He' [Hw' Hk]]]]]]]. destruct (pr_vmod_bwd p m' Hm') as [m [Hm HR]].
+    destruct (pr_find_bwd m m' i x' HR Hf') as [x [Hf [Hn Ho]]].
+    destruct (pr_parts m m' HR) as [k0 [_ [_ [_ [_ [Hk0 _]]]]]]. destruct (find_inst_In _ _ _ Hf) as [Hx _].
+    exists m, x, w. split; [exact Hm|]. split; [exact Hf|]. split; [unfold elem_ok in *; rewrite Hn; exact He'|].
+    split; [apply (pr_port_width_bwd k0 m x x' port w Hk0 Hx (eq_sym Ho) Hw')|exact Hk].
+Qed.
+
+(* ---- references chain port bits together in the old graph ---- *)
+Section Chain.
+Variables (p : path) (m : module) (k0 : nat) (keys : list key).
+Hypothesis Hm : vmod_at d p = Ok m.
+Hypothesis Hwm : wf_module d k0 m = Ok tt.
+Hypothesis Hfrag : forall x c, In x (m_insts m) -> In c (i_conns x) -> conn_frag d m x c = true.
+Hypothesis Hkeys : all_keys d m = Ok keys.
+
+Definition kbit (q : key) (j : Z) : node := NPort p (fst q) 0 (snd q) j.
+
+Lemma kbit_valid q j w : In q keys -> key_width d m q = Ok w -> 0 <= j < w -> valid d (kbit q j).
+Proof.
+  intros Hq Hw Hj. apply (keys_In d k0 m keys Hwm Hkeys) in Hq. destruct Hq as [x [w' [Hf [Hs Hw']]]].
+  unfold key_width in Hw. rewrite Hf in Hw. cbn [ofopt bind] in Hw. cbn [kbit valid]. exists m, x, w.
+  split; [exact Hm|]. split; [exact Hf|]. split; [unfold elem_ok; unfold single in Hs; rewrite Hs; reflexivity|]. auto.
+Qed.
+
+Lemma kbit_step q q' j w : In q keys -> key_width d m q = Ok w -> 0 <= j < w -> next m q = Some q' ->
+  Nets.step d (kbit q j) = Ok (kbit q' j).
+Proof.
+  intros Hq Hw Hj Hn. pose proof Hq as Hq2. apply (keys_In d k0 m keys Hwm Hkeys) in Hq2. destruct Hq2 as [x [w' [Hf [Hs Hw']]]].
+  destruct (next_wf d k0 m keys Hwm Hfrag Hkeys q q' x Hf Hn) as [w1 [wl [Hw1 [_ [_ [Hwl1 [Hcase [id [Ha Hl]]]]]]]]].
+  rewrite Hw' in Hw1. inversion Hw1; subst w1. unfold key_width in Hw. rewrite Hf in Hw. cbn [ofopt bind] in Hw. assert (w' = w) as -> by congruence.
+  assert (wl = w) as -> by (unfold single in Hs; destruct Hcase as [H|[H _]]; [exact H|lia]).
+  unfold kbit. rewrite (step_port d p (fst q) 0 (snd q) j m x (vmod_at_mod_at _ _ _ Hm) Hf).
+  assert (xbits (XSig id w) = Ok (sig_bits id w)) as Hb by (cbn [xbits]; destruct (w <? 1) eqn:E; [lia|reflexivity]).
+  assert (elem_ok x 0 = true) as He by (unfold elem_ok; unfold single in Hs; rewrite Hs; reflexivity).
+  destruct (conn_bit_some d x 0 (snd q) j _ _ w Ha Hb Hw' Hj He) as [Hcb _]; [left; apply sig_bits_len; lia|].
+  rewrite sig_bits_len in Hcb by lia. unfold conn_index in Hcb. rewrite Z.eqb_refl in Hcb.
+  assert (pick (sig_bits id w) j = Ok (id, j)) as Hp.
+  { unfold sig_bits. rewrite pick_map. destruct (pick_ok (iota (Z.to_nat w) 0 1) j) as [y [Hy Hny]]; [unfold zlen; rewrite iota_length; lia|].
+    rewrite Hy. rewrite iota_nth in Hny by lia. inversion Hny; subst y. f_equal. f_equal. lia. }
+  unfold local_tgt. rewrite Hcb, Hp. cbn [bind]. rewrite Hl. reflexivity.
+Qed.
+
+Lemma chain_iter n : forall q j w, In q keys -> key_width d m q = Ok w -> 0 <= j < w -> ec0 (kbit q j) (kbit (Nat.iter n (nxt m) q) j).
+Proof.
+  induction n as [|n IH]; intros q j w Hq Hw Hj; simpl; [apply ec_refl|].
+  eapply ec_trans; [apply (IH q j w Hq Hw Hj)|].
+  destruct (iter_keys d k0 m keys Hwm Hfrag Hkeys n q Hq) as [Hz Hzw]. set (z := Nat.iter n (nxt m) q) in *. rewrite Hw in Hzw.
+  unfold nxt. destruct (next m z) as [z'|] eqn:En; [|apply ec_refl].
+  apply ec_step; [eapply kbit_valid; eassumption|eapply kbit_step; eassumption].
+Qed.
+
+Lemma chain_conn a b j w : In a keys -> In b keys -> key_width d m a = Ok w -> 0 <= j < w -> conn key (nxt m) a b -> ec0 (kbit a j) (kbit b j).
+Proof.
+  intros Ha Hb Hw Hj C. pose proof (conn_width d k0 m keys Hwm Hfrag Hkeys a b Ha Hb C) as Hwb. rewrite Hw in Hwb.
+  apply conn_meet in C. destruct C as [n1 [n2 E]].
+  eapply ec_trans; [apply (chain_iter n1 a j w Ha Hw Hj)|]. rewrite E. apply ec_sym. apply (chain_iter n2 b j w Hb (eq_sym Hwb) Hj).
+Qed.
+End Chain.
+End PRSem.
